@@ -85,9 +85,18 @@ def gen_cfg(rng, structure=None):
         if rng.random() < 0.25:
             cfg["rename"] = [[rng.randint(0, nres - 1),
                               rng.choice(["HID", "HIE", "HIP", "ASH", "GLH", "LYN", "CYM", "HSD"])]]
-        if rng.random() < 0.4 and nres >= 6:
+        r = rng.random()
+        if r < 0.4 and nres >= 6:
             k = rng.choice([2, 2, 3]) if nres >= 9 else 2
-            cfg["chains"] = rng.sample(["A", "B", "C", "D", "X", "Q", "a", "b", "1", "2"], k)
+            cfg["chains"] = rng.sample(["A", "B", "C", "D", "X", "Q", "a", "b", "1", "2", " "], k)
+        elif r < 0.5:
+            cfg["chains"] = [" "]  # no chain ids at all: pdb2pqr has to invent them
+        if rng.random() < 0.15 and nres >= 6:
+            cfg["damage"] = (cfg.get("damage") or []) + [[rng.randint(1, nres - 3), "add_oxt"]]
+        if rng.random() < 0.12:
+            cfg["damage"] = (cfg.get("damage") or []) + [[rng.randint(0, nres - 1), "altloc"]]
+        if rng.random() < 0.10:
+            cfg["damage"] = (cfg.get("damage") or []) + [[rng.randint(0, nres - 1), "icode"]]
     argv = []
     r = rng.random()
     if r < 0.12:
@@ -127,7 +136,7 @@ def gen_cfg(rng, structure=None):
     elif r < 0.14 and ff:
         argv.append("--assign-only")
     for opt, p in (("--nodebump", 0.12), ("--noopt", 0.12), ("--drop-water", 0.12),
-                   ("--whitespace", 0.2), ("--keep-chain", 0.2), ("--include-header", 0.1)):
+                   ("--whitespace", 0.2), ("--keep-chain", 0.3), ("--include-header", 0.1)):
         if rng.random() < p:
             argv.append(opt)
     if rng.random() < 0.12:
